@@ -53,6 +53,7 @@ from __future__ import annotations
 
 import copy
 import functools
+import os
 import itertools
 import math
 
@@ -1214,10 +1215,26 @@ def h_do(call, seed, check):
     return bad
 
 
+_RELOAD_CODE = {}
+
+
 def h_reload():
+    """Fresh module-level state: re-execute imaging_utils in its own namespace, exactly what importlib.reload does, with the
+    compiled source cached (compiling is 9 of the 10 ms of a reload)."""
     import importlib
 
-    return importlib.reload(_iu())
+    mod = _iu()
+    f = getattr(mod, "__file__", None)
+    try:
+        key = (f, os.stat(f).st_mtime_ns)
+        code = _RELOAD_CODE.get(key)
+        if code is None:
+            with open(f, "rb") as fh:
+                code = _RELOAD_CODE[key] = compile(fh.read(), f, "exec")
+        exec(code, mod.__dict__)
+        return mod
+    except Exception:
+        return importlib.reload(mod)
 
 
 def h_run_history(hist, seed):
@@ -1494,6 +1511,280 @@ def y_lattice(ctx):
     return pts
 
 
+# ============================================================================= T: two threads, one preemption, owned scheduler
+# Thread A makes one unwrap call under a per-thread sys.settrace hook that sees only the frames of imaging_utils.py, counts
+# their line events and PARKS (threading.Event, no sleeps) at the k-th one; while A is parked thread B makes one complete
+# call; then A resumes.  k is enumerated over the distinct code locations A passes (first and a few later visits of each),
+# plus the two schedules without preemption.  Every schedule starts from a freshly re-imported module, so the line-event
+# stream of A up to the parking point must be the recorded one (anything else is Broken, not a verdict).
+T_VISITS_QUICK = (1, 2, 10, 100)
+T_VISITS_THOROUGH = (1, 2, 3, 4, 5, 7, 10, 15, 20, 30, 50, 70, 100, 150, 200, 300, 500, 700, 1000)
+T_WAIT = 120.0  # seconds; a wait that times out is a scheduler deadlock (Broken)
+
+
+T_ABS_LINE = {}  # (function, relative line) -> absolute line number in imaging_utils.py, for messages only
+
+
+class Diverged(Exception):
+    pass
+
+
+def t_specs():
+    P = (4, 6, False, "ramp_a", "none")
+    Q = (4, 6, False, "ramp_b", "none")
+    R = (6, 4, False, "ramp_b", "none")  # same pixel count, other shape
+    D = (5, 7, False, "bl0", "none")  # other pixel count
+    Pp = (4, 6, True, "per_sin", "none")
+    Qp = (4, 6, True, "per_bl0", "none")
+    Pm = (4, 6, False, "ramp_a", "bridge_col")
+    Qm = (4, 6, False, "bl0", "rand0")
+    Ppm = (4, 6, True, "per_sin", "bridge_col")
+    return P, Q, R, D, Pp, Qp, Pm, Qm, Ppm
+
+
+def t_pairs(quick):
+    P, Q, R, D, Pp, Qp, Pm, Qm, Ppm = t_specs()
+    pairs = [(P, Q), (Q, P), (P, R), (P, D), (Pp, Qp), (Pm, Qm)]
+    if not quick:
+        pairs += [(R, P), (D, P), (Qp, Pp), (Qm, Pm), (P, Qp), (Pp, Q), (Ppm, Qm), (Qm, Ppm), (Pm, Q), (Q, Pm), (P, P), (D, D), (R, Q), (Qp, P)]
+    return pairs
+
+
+def t_pair_kind(A, B):
+    if A[:2] == B[:2]:
+        return "same_shape"
+    return "same_pixel_count" if A[0] * A[1] == B[0] * B[1] else "different_pixel_count"
+
+
+def t_input(spec, seed):
+    H, W, wrap, field, geom = spec
+    truth = make_field(field, H, W, bool(wrap), seed)
+    given = wrap_pi(truth)
+    mask = named_mask(geom, H, W, seed)
+    return dict(spec=spec, truth=truth, given=given, mask=mask, x=torch.tensor(given), m=None if mask is None else torch.tensor(mask), wrap=bool(wrap))
+
+
+def t_invoke(inp):
+    return public_unwrap()(inp["x"], method="reliability-sorting", mask=inp["m"], wrap_around=inp["wrap"]).detach().to(torch.float64).numpy()
+
+
+def t_lib_file():
+    return os.path.realpath(_iu().__file__)
+
+
+_IS_LIB = {}
+
+
+def t_is_lib(filename, lib):
+    r = _IS_LIB.get((filename, lib))
+    if r is None:
+        r = _IS_LIB[(filename, lib)] = os.path.realpath(filename) == lib
+    return r
+
+
+def t_record(inp):
+    """Line events of one call alone, in a fresh module: list of (function name, line number relative to its def)."""
+    import sys
+
+    h_reload()
+    lib = t_lib_file()
+    ev = []
+
+    def local(frame, event, arg):
+        if event == "line":
+            loc = (frame.f_code.co_name, frame.f_lineno - frame.f_code.co_firstlineno)
+            ev.append(loc)
+            T_ABS_LINE[loc] = frame.f_lineno
+        return local
+
+    def glob(frame, event, arg):
+        if event == "call" and t_is_lib(frame.f_code.co_filename, lib):
+            return local
+        return None
+
+    sys.settrace(glob)
+    try:
+        out = t_invoke(inp)
+    finally:
+        sys.settrace(None)
+    return ev, out
+
+
+def t_points(ev, visits):
+    """[(location, visit number, 1-based index of that line event)] for every distinct location, simplest first."""
+    where = {}
+    for i, loc in enumerate(ev):
+        where.setdefault(loc, []).append(i + 1)
+    pts = []
+    for loc in sorted(where, key=lambda l: where[l][0]):
+        idxs = where[loc]
+        vs = sorted({v for v in visits if v <= len(idxs)} | {len(idxs)})
+        pts += [(loc, v, idxs[v - 1]) for v in vs]
+    return pts
+
+
+def t_schedule(A, B, k, loc, budget_a, budget_b):
+    """One schedule on a freshly re-imported module. k: None = A then B, 0 = B then A, else park A at its k-th line event.
+    Returns dict(A=('ok', array) | ('raised', text), B=..., note=...)."""
+    import sys
+    import threading
+
+    h_reload()
+    lib = t_lib_file()
+    a_parked, b_done = threading.Event(), threading.Event()
+    st = {"n": 0, "parked_at": None, "deadlock": False, "nb": 0}
+    res = {}
+
+    def local_a(frame, event, arg):
+        if event == "line":
+            st["n"] += 1
+            if st["n"] == k:
+                st["parked_at"] = (frame.f_code.co_name, frame.f_lineno - frame.f_code.co_firstlineno)
+                a_parked.set()
+                if not b_done.wait(T_WAIT):
+                    st["deadlock"] = True
+            elif st["n"] > budget_a:
+                raise Diverged(f"thread A executed more than {budget_a} library lines (alone: {budget_a // 20})")
+        return local_a
+
+    def local_b(frame, event, arg):
+        if event == "line":
+            st["nb"] += 1
+            if st["nb"] > budget_b:
+                raise Diverged(f"thread B executed more than {budget_b} library lines (alone: {budget_b // 20})")
+        return local_b
+
+    def mk(local):
+        def glob(frame, event, arg):
+            if event == "call" and t_is_lib(frame.f_code.co_filename, lib):
+                return local
+            return None
+
+        return glob
+
+    def thread_a():
+        try:
+            if k == 0:
+                a_parked.set()
+                if not b_done.wait(T_WAIT):
+                    st["deadlock"] = True
+            sys.settrace(mk(local_a))
+            try:
+                res["A"] = ("ok", t_invoke(A))
+            finally:
+                sys.settrace(None)
+        except Exception as e:
+            res["A"] = ("raised", f"{type(e).__name__}: {str(e)[:200]}")
+        finally:
+            a_parked.set()
+
+    def thread_b():
+        try:
+            if not a_parked.wait(T_WAIT):
+                st["deadlock"] = True
+            sys.settrace(mk(local_b))
+            try:
+                res["B"] = ("ok", t_invoke(B))
+            finally:
+                sys.settrace(None)
+        except Exception as e:
+            res["B"] = ("raised", f"{type(e).__name__}: {str(e)[:200]}")
+        finally:
+            b_done.set()
+
+    ta, tb = threading.Thread(target=thread_a, daemon=True), threading.Thread(target=thread_b, daemon=True)
+    ta.start()
+    tb.start()
+    ta.join(T_WAIT)
+    tb.join(T_WAIT)
+    if ta.is_alive() or tb.is_alive() or st["deadlock"]:
+        raise Broken(f"T: scheduler deadlock in schedule k={k} {loc}")
+    if k and st["parked_at"] != tuple(loc):
+        raise Broken(f"T: nondeterministic trace: schedule k={k} expected to park at {loc}, thread A was at {st['parked_at']} (executed {st['n']} lines)")
+    res["lines"] = (st["n"], st["nb"])
+    return res
+
+
+def t_signature(res):
+    return tuple((res[w][0], digest(res[w][1].tobytes()) if res[w][0] == "ok" else res[w][1]) for w in ("A", "B")) + (res["lines"],)
+
+
+def t_judge(who, inp, got, ref):
+    """Failures of one thread's result: the ordinary oracle for ITS OWN field and equality with its single-threaded result."""
+    if got[0] != "ok":
+        return [("raised", f"thread {who} raised {got[1]}")], False
+    out = got[1]
+    H, W = inp["truth"].shape
+    mm = np.ones((H, W), bool) if inp["mask"] is None else inp["mask"]
+    lab, n = components(mm, inp["wrap"])
+    bad, non, _, _ = judge(out, inp["truth"], inp["given"], lab, n, True, "wrapped")
+    bad = [(rel, f"thread {who}: {msg}") for rel, msg in bad]
+    d = float(np.abs(out - ref).max())
+    if not d <= TOL:
+        bad.append(("equals_single_threaded_result", f"thread {who}: differs from the result of the same call made alone by up to {d:.4g} rad = {d / TWO_PI:.3f} * 2*pi"))
+    return bad, non
+
+
+def t_describe(spec):
+    return f"{spec[0]}x{spec[1]} {'periodic' if spec[2] else 'bounded'} {spec[3]} mask={spec[4]}"
+
+
+def t_worker(item, seed=0, quick=True, only=None):
+    """All schedules of one ordered pair (A parked, B complete) that fall into this chunk."""
+    import linecache
+
+    pi, chunk, nchunks = item
+    A_spec, B_spec = t_pairs(quick)[pi] if only is None else (tuple(only["A"]), tuple(only["B"]))
+    A, B = t_input(A_spec, seed), t_input(B_spec, seed)
+    t = Tally()
+    ev, ref_a = t_record(A)
+    ev2, ref_a2 = t_record(A)
+    evb, ref_b = t_record(B)
+    if ev != ev2 or ref_a.tobytes() != ref_a2.tobytes():
+        raise Broken(f"T: two recordings of the same call differ ({len(ev)} vs {len(ev2)} line events)")
+    budget_a, budget_b = 20 * len(ev), 20 * len(evb)
+    pts = [(None, 0, None), (None, 0, 0)] + t_points(ev, T_VISITS_QUICK if quick else T_VISITS_THOROUGH)
+    if only is not None:
+        want = only["point"]
+        pts = [p for p in pts if (want == "A_then_B" and p[2] is None) or (want == "B_then_A" and p[2] == 0) or (p[0] is not None and [p[0][0], p[0][1], p[1]] == want)]
+    kind = t_pair_kind(A_spec, B_spec)
+    for j, (loc, visit, k) in enumerate(pts):
+        if only is None and j % nchunks != chunk:
+            continue
+        res = t_schedule(A, B, k, loc, budget_a, budget_b)
+        bad_a, non_a = t_judge("A", A, res["A"], ref_a)
+        bad_b, non_b = t_judge("B", B, res["B"], ref_b)
+        bad = bad_a + bad_b
+        if bad or j % 5 == 0:  # replay: a schedule must give the same thing twice
+            res2 = t_schedule(A, B, k, loc, budget_a, budget_b)
+            if t_signature(res) != t_signature(res2):
+                raise Broken(f"T: schedule k={k} {loc} visit {visit} of pair {t_describe(A_spec)} / {t_describe(B_spec)} does not replay identically: {t_signature(res)} vs {t_signature(res2)}")
+            t.extra["T_schedules_replayed_identically"] += 1
+        point = "A_then_B" if k is None else "B_then_A" if k == 0 else [loc[0], loc[1], visit]
+        case = {"part": "T", "A": list(A_spec), "B": list(B_spec), "point": point, "seed": seed}
+        preempting = bool(k)
+        t.case(key=("T", A_spec, B_spec, point), nontrivial=preempting and non_a, outcome=("T", pi, t_signature(res)[:2]))
+        t.extra["T_schedules"] += 1
+        t.extra["T_schedules_with_preemption"] += int(preempting)
+        t.extra[f"T_schedules_{kind}"] += 1
+        if preempting:
+            t.nontrivial.add(digest(["T-loc", list(loc)]))
+            t.extra["T_preemptions_in_" + loc[0]] += 1
+        if bad:
+            if preempting:
+                line = linecache.getline(t_lib_file(), T_ABS_LINE.get(tuple(loc), 0)).strip()
+                sched = f"thread A ({t_describe(A_spec)}) parked at its library line event {k} = {loc[0]}+{loc[1]} (visit {visit} of line {T_ABS_LINE.get(tuple(loc), '?')} `{line[:70]}`) while thread B ({t_describe(B_spec)}) made one complete call"
+            else:
+                sched = f"no preemption, {point}: A = {t_describe(A_spec)}, B = {t_describe(B_spec)}"
+            for rel, msg in bad:
+                t.fail({"part": "T_two_threads", "relation": rel, "pair": kind, "preemption": preempting}, case, f"{sched}: {msg}")
+        if preempting and loc[0] == "union" and visit == 2 and pi == 0:
+            t.sample({"part": "T", "thread_A": t_describe(A_spec), "thread_B": t_describe(B_spec), "parked_at": point, "library_line_event": k,
+                      "library_lines_of_A_alone": len(ev), "failures": len(bad)}, cap=1)
+    h_reload()
+    return t
+
+
 # ============================================================================= enumeration
 A1_BOUNDED_FIELDS = ["ramp_a", "ramp_b", "quad_saddle", "bl0"]
 A1_PERIODIC_FIELDS = ["per_sin", "per_bl0"]
@@ -1655,6 +1946,7 @@ def run(ctx):
         "a union of two pixels that already share a root is a self-loop of the state graph (validated exhaustively on the 2x3 graph before the reduction is used)",
         "Poisson method: only 'does not raise' with wrap_around=True",
         "magnitude thresholds are only visible where the alphabet straddles them: wrap counts up to 269 end to end (L), 32,850 on the union-find alone (A3, thorough); larger counts are not explored",
+        "concurrency: two threads, one call each, at most ONE preemption, placed at line granularity inside imaging_utils.py frames only (a switch inside a torch kernel or with two or more preemptions is not explored); each schedule starts from a freshly re-imported module",
         "hidden state between calls is looked for in quantem.core.utils.imaging_utils only (re-imported before every call history); histories of 2 (thorough: 3) calls from a 9-call alphabet",
     )
     for m in S.missing:
@@ -1764,6 +2056,16 @@ def run(ctx):
     ht = ctx.pmap(h_worker, hitems, chunk=1, label="H call histories", seed=seed)
     h_reload()
 
+    # ---- T: two threads, one preemption
+    T_CHUNKS = 4 if ctx.quick else 8
+    titems = [(pi, c, T_CHUNKS) for pi in range(len(t_pairs(ctx.quick))) for c in range(T_CHUNKS)]
+    tt = ctx.pmap(t_worker, titems, chunk=1, label="T two-thread schedules", seed=seed, quick=ctx.quick)
+    if tt.extra["T_schedules_with_preemption"] < 500 or tt.extra["T_preemptions_in_union"] < 20 or tt.extra["T_schedules_same_shape"] < 100:
+        raise Broken(f"T: degenerate schedule enumeration ({int(tt.extra['T_schedules'])} schedules)")
+    ctx.say(f"T: {int(tt.extra['T_schedules'])} schedules ({int(tt.extra['T_schedules_with_preemption'])} with one preemption) over {len(t_pairs(ctx.quick))} ordered field pairs; "
+            f"{int(tt.extra['T_schedules_replayed_identically'])} replayed and identical")
+    h_reload()
+
     # ---- Y: memory layout / dtype / container spellings of the input and the mask
     yt = ctx.pmap(y_worker, y_lattice(ctx), chunk=1, label="Y input spellings", seed=seed)
     if len(yt.nontrivial) < 200 or yt.extra["Y_accepted_transposed_view"] < 10:
@@ -1808,6 +2110,10 @@ def run(ctx):
             "Y_points": [list(x) for x in y_lattice(ctx)[:3]] + ["..."], "Y_grid_points": len(y_lattice(ctx)), "Y_calls": int(yt.extra["Y_calls"]),
             "Y_phase_spellings": ["c_f32 (canonical)"] + list(Y_PHASE_F32 + Y_PHASE_OTHER), "Y_mask_spellings": ["bool (canonical)"] + list(Y_MASKS),
             "Y_must_accept": sorted(Y_MUST_ACCEPT),
+            "T_ordered_field_pairs": [[t_describe(a), t_describe(b), t_pair_kind(a, b)] for a, b in t_pairs(ctx.quick)],
+            "T_visit_numbers_per_code_location": list(T_VISITS_QUICK if ctx.quick else T_VISITS_THOROUGH) + ["last"],
+            "T_schedules": int(tt.extra["T_schedules"]), "T_schedules_with_one_preemption": int(tt.extra["T_schedules_with_preemption"]),
+            "T_schedules_replayed_identically": int(tt.extra["T_schedules_replayed_identically"]), "T_preemption_bound": 1, "T_threads": 2,
         },
         alphabet={
             "A1_fields_bounded": A1_BOUNDED_FIELDS, "A1_fields_periodic": A1_PERIODIC_FIELDS,
@@ -1892,6 +2198,13 @@ def replay(ctx, case):
         print(f"  last call after the history: {len(bad)} failure(s); the same call alone in a fresh module: {len(alone)} failure(s)")
         for rel, msg in bad:
             ctx.fail({"part": "H_call_history", "relation": rel, "last_call": hist[-1][0]}, case, f"history {case['history']}: [{rel}] {msg}")
+    elif part == "T":
+        t = t_worker((0, 0, 1), seed=seed, quick=True, only=case)
+        print(f"  schedule {case['point']}: {int(t.extra['T_schedules'])} schedule(s) executed, {int(t.extra['T_schedules_replayed_identically'])} replayed identically")
+        if not t.extra["T_schedules"]:
+            print("  this tree does not pass the recorded code location (different code): nothing to replay")
+        for f in t.fails:
+            ctx.fail(f["cls"], case, f["msg"])
     elif part == "Y":
         pt = case["pt"]
         t = y_worker((pt[0], pt[1], pt[2], pt[3], pt[4]), seed=seed, only=case["spelling"])
